@@ -372,6 +372,13 @@ def loop_obligations(F, res, reach, crates=("tx3_lang",), rule="LOOP", rows=None
     for r in (rows or []):
         LOOP_ROWS[r["key"]] = r["reason"]
     n = 0
+    from ..common import row_lookup
+    present = set()
+    for p in reach:
+        f = F.built.get(p, F.fns[p])
+        if f["crate"] in crates and not is_derive(f) and mir.CFG(f).loops():
+            present.add("%s|loop" % p)
+    look = row_lookup(LOOP_ROWS, present)
     for p in sorted(reach):
         f = F.built.get(p, F.fns[p])
         if f["crate"] not in crates or is_derive(f):
@@ -442,6 +449,8 @@ def loop_obligations(F, res, reach, crates=("tx3_lang",), rule="LOOP", rows=None
                 res.add([ok(rule, key, w, "D-TABLE: " + LOOP_ROWS[key])])
             elif bounded:
                 res.add([ok(rule, key, w, "loop guarded by a comparison against a literal bound")])
+            elif look(key):
+                res.add([ok(rule, key, w, "D-TABLE: %s (row relocated from %s)" % look(key))])
             else:
                 res.add([finding(rule, key, w, "loop is neither iterator-driven nor bounded by a literal: termination not evident")])
     res.count("natural loops", n)
